@@ -4,7 +4,7 @@ from harness.common import *  # noqa
 ABSENT = 'b' * 64
 
 
-def _direct(what, h0, s0, s1, s2, pos, target, no_holes, read_twice):
+def _direct(what, h0, s0, s1, s2, pos, target, no_holes, read_twice, cut=0):
     """pack 0 already holds obj0 (after a hole); the batch is [obj1, obj2] with a duplicate inserted at ``pos``:
     pos 0..2 -> obj0 (already packed) at that position; pos 3 -> obj1 a second time at the end."""
     w = make_world(target)
@@ -17,12 +17,15 @@ def _direct(what, h0, s0, s1, s2, pos, target, no_holes, read_twice):
             batch.append((1, s1))
         objs = objs_map(w, [(0, s0), (1, s1), (2, s2)])
         before = w.image()
-        streams = [w.stream(i, s) for i, s in batch]
+        streams = [w.stream(i, s, cut if i == 2 else 0) for i, s in batch]
         keys = w.c.add_streamed_objects_to_pack(streams, no_holes=no_holes, no_holes_read_twice=read_twice)
         if keys != [w.key(i, s) for i, s in batch]:
             return False
         if what == 'views':
-            return views_ok(w.c, w, objs, ABSENT)
+            if not views_ok(w.c, w, objs, ABSENT):
+                return False
+            w.c.close()
+            return w.open_fds(True) == 0
         after = w.image()
         if what == 'reach':
             return len(after.pack_ids()) < 2
@@ -46,7 +49,7 @@ def _direct(what, h0, s0, s1, s2, pos, target, no_holes, read_twice):
         w.cleanup()
 
 
-def _loose(what, s0, s1, form, damaged):
+def _loose(what, s0, s1, form, damaged, cut=0):
     """obj0 is already stored (form 0: loose, 1: packed, 2: both); add obj0 again and a new obj1 as loose objects.
     ``damaged``: the existing loose copy of obj0 holds junk of the same length (form 0 or 2)."""
     w = make_world(10**9)
@@ -58,12 +61,15 @@ def _loose(what, s0, s1, form, damaged):
             if damaged:
                 w.damage_loose(w.key(0, s0), s0)
         objs = objs_map(w, [(0, s0), (1, s1)])
-        k0 = w.c.add_streamed_object(w.stream(0, s0))
-        k1 = w.c.add_streamed_object(w.stream(1, s1))
+        k0 = w.c.add_object(w.content(0, s0))  # the from-bytes path (io.BytesIO wrapper)
+        k1 = w.c.add_streamed_object(w.stream(1, s1, cut))
         if k0 != w.key(0, s0) or k1 != w.key(1, s1):
             return False
         if what == 'views':
-            return views_ok(w.c, w, objs, ABSENT)
+            if not views_ok(w.c, w, objs, ABSENT):
+                return False
+            w.c.close()
+            return w.open_fds(True) == 0
         after = w.image()
         if not inv_ok(after, w, objs):
             return False
@@ -77,17 +83,18 @@ def _loose(what, s0, s1, form, damaged):
         w.cleanup()
 
 
-def loose_inv(s0: int, s1: int, form: int, damaged: bool) -> bool:
+def loose_inv(s0: int, s1: int, form: int, damaged: bool, cut: int) -> bool:
     """
-    pre: 0 <= s0 <= 140000 and 1 <= s1 <= 140000 and 0 <= form <= 2
+    cut: the input stream of the new object returns a short count (at most cut bytes) at its first read; 0 = never.
+    pre: 0 <= s0 <= 140000 and 1 <= s1 <= 140000 and 0 <= form <= 2 and 0 <= cut <= 140000
     post: _
     """
-    return _loose('inv', s0, s1, form, damaged)
+    return _loose('inv', s0, s1, form, damaged, cut)
 
 
-def loose_views(s0: int, s1: int, form: int, damaged: bool) -> bool:
+def loose_views(s0: int, s1: int, form: int, damaged: bool, cut: int) -> bool:
     """
-    pre: 0 <= s0 <= 140000 and 1 <= s1 <= 140000 and 0 <= form <= 2
+    pre: 0 <= s0 <= 140000 and 1 <= s1 <= 140000 and 0 <= form <= 2 and 0 <= cut <= 140000
     post: _
     """
-    return _loose('views', s0, s1, form, damaged)
+    return _loose('views', s0, s1, form, damaged, cut)
